@@ -133,4 +133,64 @@ theorem rounded_excursion_le_one (rnd : F → F) (u : F) (hr : ∀ y, y ≤ 1 + 
   have : (m - 1) * u ≤ 1 * u := mul_le_mul_of_nonneg_right (by linarith) (le_of_lt hu0)
   linarith
 
+/-- **Rounded excursion map, lower side**: the difference about to be rounded is non-negative (so the
+    result keeps the sign and is ≥ -1 trivially). -/
+theorem rounded_excursion_lower (u epsf m x d1 d2 d3 d4 d5 d6 : F) (hu0 : 0 < u) (hu1 : u ≤ 1 / 16)
+    (heps0 : 0 ≤ epsf) (heps1 : epsf ≤ 1 / 16)
+    (h1 : |d1| ≤ u) (h2 : |d2| ≤ u) (h3 : |d3| ≤ u) (h4 : |d4| ≤ u) (h5 : |d5| ≤ u) (h6 : |d6| ≤ u)
+    (hm1 : 1 < m) (hm2 : m ≤ 2) (hx0 : 0 ≤ x) (hxm : x ≤ m) :
+    0 ≤ x - ((((m - 1) / (m * m * (1 + d1)) * (1 + d2)) + ((m - 1) / (m * m * (1 + d1)) * (1 + d2)) * epsf * (1 + d4)) *
+          (1 + d3) * x * (1 + d5)) * x * (1 + d6) := by
+  obtain ⟨a1, b1⟩ := abs_le.mp h1
+  obtain ⟨a2, b2⟩ := abs_le.mp h2
+  obtain ⟨a3, b3⟩ := abs_le.mp h3
+  obtain ⟨a4, b4⟩ := abs_le.mp h4
+  obtain ⟨a5, b5⟩ := abs_le.mp h5
+  obtain ⟨a6, b6⟩ := abs_le.mp h6
+  have hd1 : 0 < 1 + d1 := by linarith
+  have hmpos : 0 < m := by linarith
+  have hmm : 0 < m * m := mul_pos hmpos hmpos
+  set Q : F := (1 + d2) * (1 + epsf * (1 + d4)) * (1 + d3) * (1 + d5) * (1 + d6) / (1 + d1) with hQ
+  have ht2 : ((((m - 1) / (m * m * (1 + d1)) * (1 + d2)) + ((m - 1) / (m * m * (1 + d1)) * (1 + d2)) * epsf * (1 + d4)) *
+          (1 + d3) * x * (1 + d5)) * x * (1 + d6) = (m - 1) / (m * m) * (x * x) * Q := by
+    rw [hQ]; field_simp
+  rw [ht2]
+  -- Q ≤ 2
+  have g2 : 0 ≤ 1 + d2 ∧ 1 + d2 ≤ 17 / 16 := ⟨by linarith, by linarith⟩
+  have g3 : 0 ≤ 1 + d3 ∧ 1 + d3 ≤ 17 / 16 := ⟨by linarith, by linarith⟩
+  have g5 : 0 ≤ 1 + d5 ∧ 1 + d5 ≤ 17 / 16 := ⟨by linarith, by linarith⟩
+  have g6 : 0 ≤ 1 + d6 ∧ 1 + d6 ≤ 17 / 16 := ⟨by linarith, by linarith⟩
+  have ge : 0 ≤ 1 + epsf * (1 + d4) ∧ 1 + epsf * (1 + d4) ≤ 9 / 8 := by
+    have h0 : 0 ≤ epsf * (1 + d4) := mul_nonneg heps0 (by linarith)
+    have h1' : epsf * (1 + d4) ≤ 1 / 16 * (17 / 16) := mul_le_mul heps1 (by linarith) (by linarith) (by norm_num)
+    exact ⟨by linarith, by linarith⟩
+  have n1 : (1 + d2) * (1 + epsf * (1 + d4)) ≤ 17 / 16 * (9 / 8) := mul_le_mul g2.2 ge.2 ge.1 (by norm_num)
+  have z1 : 0 ≤ (1 + d2) * (1 + epsf * (1 + d4)) := mul_nonneg g2.1 ge.1
+  have n2 : (1 + d2) * (1 + epsf * (1 + d4)) * (1 + d3) ≤ 17 / 16 * (9 / 8) * (17 / 16) := mul_le_mul n1 g3.2 g3.1 (by norm_num)
+  have z2 : 0 ≤ (1 + d2) * (1 + epsf * (1 + d4)) * (1 + d3) := mul_nonneg z1 g3.1
+  have n3 : (1 + d2) * (1 + epsf * (1 + d4)) * (1 + d3) * (1 + d5) ≤ 17 / 16 * (9 / 8) * (17 / 16) * (17 / 16) :=
+    mul_le_mul n2 g5.2 g5.1 (by norm_num)
+  have z3 : 0 ≤ (1 + d2) * (1 + epsf * (1 + d4)) * (1 + d3) * (1 + d5) := mul_nonneg z2 g5.1
+  have n4 : (1 + d2) * (1 + epsf * (1 + d4)) * (1 + d3) * (1 + d5) * (1 + d6) ≤
+      17 / 16 * (9 / 8) * (17 / 16) * (17 / 16) * (17 / 16) := mul_le_mul n3 g6.2 g6.1 (by norm_num)
+  have hQ2 : Q ≤ 2 := by
+    rw [hQ, div_le_iff₀ hd1]
+    have : (2 : F) * (15 / 16) ≤ 2 * (1 + d1) := by linarith
+    have c : (17 : F) / 16 * (9 / 8) * (17 / 16) * (17 / 16) * (17 / 16) ≤ 2 * (15 / 16) := by norm_num
+    linarith
+  have hQ0 : 0 ≤ Q := by rw [hQ]; exact div_nonneg (mul_nonneg z3 g6.1) (le_of_lt hd1)
+  -- (m-1) x / m^2 ≤ 1/2
+  have hk : (m - 1) / (m * m) * x ≤ 1 / 2 := by
+    rw [div_mul_eq_mul_div, div_le_iff₀ hmm]
+    have h' : (m - 1) * x ≤ (m - 1) * m := mul_le_mul_of_nonneg_left hxm (by linarith)
+    have h'' : (m - 1) * m ≤ (1 / 2 * m) * m := mul_le_mul_of_nonneg_right (by linarith) (le_of_lt hmpos)
+    have e' : (1 / 2 * m) * m = 1 / 2 * (m * m) := by ring
+    linarith
+  have hk0 : 0 ≤ (m - 1) / (m * m) * x := mul_nonneg (div_nonneg (by linarith) (le_of_lt hmm)) hx0
+  have e : (m - 1) / (m * m) * (x * x) * Q = x * ((m - 1) / (m * m) * x * Q) := by ring
+  rw [e]
+  have : (m - 1) / (m * m) * x * Q ≤ 1 / 2 * 2 := mul_le_mul hk hQ2 hQ0 (by norm_num)
+  have hx1 : x * ((m - 1) / (m * m) * x * Q) ≤ x * 1 := mul_le_mul_of_nonneg_left (by linarith) hx0
+  linarith
+
 end Opus.SoftClip
